@@ -66,7 +66,7 @@ PROPS["C20"] = {
     "technique": "rapid-generated fake detectors and inventories run through Scanner.Scan, checked against a model of index contents, finding tagging, statuses and advisory consistency",
     "level_text": "Generated-input search through the public Scan entry point: fake extractors (filesystem and standalone, packages with and without purl, colliding names and types) and 0-4 fake detectors with generated finding lists; the index each detector receives, the emitted findings, the per-detector statuses and the overall status are compared with a direct model of the statement.",
     "level_note": "Trusted: recording fake plugins (harness/internal/recext). A nil *Finding inside a finding list is treated as API misuse and not generated.",
-    "rule": "rapid-generated small trees x 1..3 fake filesystem extractors (1..3 packages per file, purl types generic/pypi/npm/deb, 0..100% of packages without purl, name pools so that type+name collide) x 0..2 standalone extractors x 0..4 fake detectors each returning 0..3 findings (advisory ids from a pool of 6, titles/severities that make bodies equal or unequal, ~13% without advisory or id) and possibly an error; non-trivial = >=2 detectors and >=2 findings; distinct by hash of the case JSON",
+    "rule": "rapid-generated small trees x 1..3 fake filesystem extractors (1..3 packages per file, purl types generic/pypi/npm/deb, purls with and without namespace, qualifiers and subpath, purl names equal to / derived from / shared between package names, 0..100% of packages without purl, name pools so that type+name collide; GetSpecific and GetAllOfType are checked for recall and precision, incl. absent types and names) x 0..2 standalone extractors x 0..4 fake detectors each returning 0..3 findings (advisory ids from a pool of 6, titles/severities that make bodies equal or unequal, ~13% without advisory or id) and possibly an error; non-trivial = >=2 detectors and >=2 findings; distinct by hash of the case JSON",
     "assumptions": ["two advisories are 'equal in content' iff all their fields are deeply equal"],
     "legs": [{"fam": "scanfam", "run": "^TestC20$"}],
     "timeout": {"quick": 600, "thorough": 2400},
